@@ -112,6 +112,9 @@ inline Report execute_inprocess(std::vector<uint32_t> const& v)
   return r;
 }
 
+#if defined(VERIF_COVERAGE)
+extern "C" int __llvm_profile_write_file(void);
+#endif
 inline Report execute_forked(std::vector<uint32_t> const& v, unsigned watchdog_ms)
 {
   Report r;
@@ -146,6 +149,9 @@ inline Report execute_forked(std::vector<uint32_t> const& v, unsigned watchdog_m
       off += static_cast<size_t>(w);
     }
     close(pfd[1]);
+#if defined(VERIF_COVERAGE)
+    __llvm_profile_write_file();
+#endif
     _exit(0);
   }
   close(pfd[1]);
